@@ -12,3 +12,16 @@ oracle = AR.filtered_oracle(['input-modified', 'inadmissible', 'group-sizes', 'o
 
 def cases(tier, rng, dist):
     return AR.cases(tier, rng, dist, extra=('exp', 'pifs'))
+
+
+def generated(tier):
+    """G2: every statement of /repo/permute/*.py that can write into an object received as a parameter"""
+    from ..translate.effects import scan
+    from ..common import cstr
+    _, writes = scan()
+    items = sorted({(m, f, t) for (m, f, ln, k, t) in writes})
+    detail = [list(w) for w in writes]
+    text = ("From Coq Require Import String List Bool.\nImport ListNotations.\nFrom PV Require Import Lib.EffectSites.\n"
+            "Definition sites : list (string * string * string) := [" + "; ".join(f"({cstr(m)}, {cstr(f)}, {cstr(t)})" for (m, f, t) in items) + "].\n"
+            "Theorem parameter_writes_allowed : forallb write_ok sites = true.\nProof. vm_compute. reflexivity. Qed.\n")
+    return [{"name": "G2_parameter_writes_allowed", "file": "C03_G2_writes.v", "text": text, "detail": detail, "cls": "source:parameter-write"}]
